@@ -302,6 +302,10 @@ class FnTranslator:
             return ("(if %s then %s else %s)" % (c, a, b), ta)
         if isinstance(node, ast.Call):
             return self.call(node, env)
+        if isinstance(node, ast.Subscript) and self.txt(node) in self.types:
+            # (additive, C09) a subscript whose exact source text is declared in `types`
+            # (e.g. "self._queue[0][0]") becomes a parameter of that type
+            return self.param(self.txt(node))
         self.err(node, "expression %s" % type(node).__name__)
 
     def inline_property(self, node, env):
